@@ -1,40 +1,26 @@
 package main
 
-// BV -> Int translation with deferred reduction ("Int mode").
+// BV -> Int translation with deferred reduction ("Int mode") over normalised integer polynomials.
+//
 // Every bit-vector term t of width w is mapped to an integer polynomial P with  value(t) = P mod 2^w.
-// Reduction is only materialised where the canonical residue is observed (>>, compare, widen, mask);
-// there it is dropped when interval analysis proves 0 <= P < 2^w (a no-wrap fact), otherwise `mod` stays.
+// Reduction is materialised only where the canonical residue is observed (>>, compare, widen, mask);
+// there it is dropped when range analysis proves 0 <= P < 2^w (a no-wrap fact), otherwise it is kept
+// exactly as  P - 2^w * floor(P / 2^w).  Polynomials are kept in normal form (sum of coef * monomial over
+// atoms); floor divisions by constants are atoms from which exact multiples are pulled out
+// (floor((m*K + R)/m) = K + floor(R/m)), which is what makes hi/lo carry chains and limb carries telescope.
+// Division atoms are emitted to the solver as skolem integers with their defining inequalities.
 
 import (
 	"math/big"
+	"sort"
+	"strconv"
+	"strings"
 	"sync/atomic"
 )
 
-type ival struct{ lo, hi *big.Int } // nil pointer fields = unknown
+type ival struct{ lo, hi *big.Int } // nil fields = unknown
 
 func (i ival) known() bool { return i.lo != nil && i.hi != nil }
-
-type lazyInt struct {
-	p  *Term
-	iv ival
-}
-
-type intTr struct {
-	lazyMemo  map[*Term]lazyInt
-	canonMemo map[*Term]lazyInt
-	boolMemo  map[*Term]*Term
-	intMemo   map[*Term]lazyInt
-	side      []*Term
-	vbound    map[*Term]*big.Int // BV var -> inclusive upper bound from hypotheses
-	declared  map[*Term]bool
-}
-
-var statModsDropped, statModsKept int64
-
-func newIntTranslator() *intTr {
-	return &intTr{lazyMemo: map[*Term]lazyInt{}, canonMemo: map[*Term]lazyInt{}, boolMemo: map[*Term]*Term{},
-		intMemo: map[*Term]lazyInt{}, vbound: map[*Term]*big.Int{}, declared: map[*Term]bool{}}
-}
 
 func unk() ival                { return ival{} }
 func kiv(lo, hi *big.Int) ival { return ival{lo, hi} }
@@ -87,6 +73,25 @@ func ivUnion(a, b ival) ival {
 	}
 	return ival{lo, hi}
 }
+func ivMeet(a, b ival) ival {
+	if !a.known() {
+		return b
+	}
+	if !b.known() {
+		return a
+	}
+	lo, hi := a.lo, a.hi
+	if b.lo.Cmp(lo) > 0 {
+		lo = b.lo
+	}
+	if b.hi.Cmp(hi) < 0 {
+		hi = b.hi
+	}
+	if lo.Cmp(hi) > 0 { // inconsistent (dead code): keep one of them
+		return a
+	}
+	return ival{lo, hi}
+}
 func floorDiv(a, m *big.Int) *big.Int {
 	q, r := new(big.Int), new(big.Int)
 	q.DivMod(a, m, r)
@@ -100,6 +105,212 @@ func ivDivC(a ival, m *big.Int) ival {
 }
 func ivWithin(a ival, lo, hi *big.Int) bool {
 	return a.known() && a.lo.Cmp(lo) >= 0 && a.hi.Cmp(hi) <= 0
+}
+
+// ---------- polynomials ----------
+
+type pmono struct {
+	coef  *big.Int
+	atoms []*Term // sorted by id, repeated for powers
+}
+
+type Poly struct {
+	ms map[string]*pmono
+	iv ival // structural interval (sound over-approximation)
+}
+
+func monoKey(atoms []*Term) string {
+	if len(atoms) == 0 {
+		return ""
+	}
+	var sb strings.Builder
+	for i, a := range atoms {
+		if i > 0 {
+			sb.WriteByte(',')
+		}
+		sb.WriteString(strconv.FormatInt(a.id, 36))
+	}
+	return sb.String()
+}
+
+func pConst(v *big.Int) *Poly {
+	p := &Poly{ms: map[string]*pmono{}, iv: ivConst(v)}
+	if v.Sign() != 0 {
+		p.ms[""] = &pmono{coef: new(big.Int).Set(v)}
+	}
+	return p
+}
+
+func pAtom(a *Term, iv ival) *Poly {
+	return &Poly{ms: map[string]*pmono{monoKey([]*Term{a}): {coef: big.NewInt(1), atoms: []*Term{a}}}, iv: iv}
+}
+
+func (p *Poly) isConst() (*big.Int, bool) {
+	if len(p.ms) == 0 {
+		return big0, true
+	}
+	if len(p.ms) == 1 {
+		if m, ok := p.ms[""]; ok {
+			return m.coef, true
+		}
+	}
+	return nil, false
+}
+
+func pAddScaled(a, b *Poly, k *big.Int) *Poly {
+	r := &Poly{ms: make(map[string]*pmono, len(a.ms)+len(b.ms))}
+	for key, m := range a.ms {
+		r.ms[key] = m
+	}
+	for key, m := range b.ms {
+		c := new(big.Int).Mul(m.coef, k)
+		if old, ok := r.ms[key]; ok {
+			c.Add(c, old.coef)
+		}
+		if c.Sign() == 0 {
+			delete(r.ms, key)
+		} else {
+			r.ms[key] = &pmono{coef: c, atoms: m.atoms}
+		}
+	}
+	return r
+}
+
+func pAdd(a, b *Poly) *Poly {
+	r := pAddScaled(a, b, big1)
+	r.iv = ivAdd(a.iv, b.iv)
+	return r.fixConst()
+}
+func pSub(a, b *Poly) *Poly {
+	r := pAddScaled(a, b, big.NewInt(-1))
+	r.iv = ivSub(a.iv, b.iv)
+	return r.fixConst()
+}
+func pNeg(a *Poly) *Poly { return pSub(pConst(big0), a) }
+func pScale(a *Poly, k *big.Int) *Poly {
+	r := pAddScaled(&Poly{ms: map[string]*pmono{}}, a, k)
+	r.iv = ivMul(a.iv, ivConst(k))
+	return r.fixConst()
+}
+func (p *Poly) fixConst() *Poly {
+	if c, ok := p.isConst(); ok {
+		p.iv = ivConst(c)
+	}
+	return p
+}
+
+func pMul(a, b *Poly) *Poly {
+	if len(a.ms)*len(b.ms) > 20000 {
+		fail("int translation: polynomial product too large (%d x %d monomials)", len(a.ms), len(b.ms))
+	}
+	r := &Poly{ms: map[string]*pmono{}}
+	for _, x := range a.ms {
+		for _, y := range b.ms {
+			atoms := make([]*Term, 0, len(x.atoms)+len(y.atoms))
+			atoms = append(atoms, x.atoms...)
+			atoms = append(atoms, y.atoms...)
+			sort.Slice(atoms, func(i, j int) bool { return atoms[i].id < atoms[j].id })
+			key := monoKey(atoms)
+			c := new(big.Int).Mul(x.coef, y.coef)
+			if old, ok := r.ms[key]; ok {
+				c.Add(c, old.coef)
+			}
+			if c.Sign() == 0 {
+				delete(r.ms, key)
+			} else {
+				r.ms[key] = &pmono{coef: c, atoms: atoms}
+			}
+		}
+	}
+	r.iv = ivMul(a.iv, b.iv)
+	return r.fixConst()
+}
+
+func (p *Poly) sortedKeys() []string {
+	ks := make([]string, 0, len(p.ms))
+	for k := range p.ms {
+		ks = append(ks, k)
+	}
+	sort.Strings(ks)
+	return ks
+}
+
+// polyTerm renders a polynomial as an Int term (deterministic).
+func polyTerm(p *Poly) *Term {
+	var r *Term
+	for _, k := range p.sortedKeys() {
+		m := p.ms[k]
+		var t *Term
+		for _, a := range m.atoms {
+			if t == nil {
+				t = a
+			} else {
+				t = IMul(t, a)
+			}
+		}
+		if t == nil {
+			t = IntC(m.coef)
+		} else if m.coef.Cmp(big1) != 0 {
+			t = IMul(t, IntC(m.coef))
+		}
+		if r == nil {
+			r = t
+		} else {
+			r = IAdd(r, t)
+		}
+	}
+	if r == nil {
+		return IntI(0)
+	}
+	return r
+}
+
+// ---------- translator ----------
+
+type divDef struct {
+	q *Term // skolem variable
+	r *Poly // dividend
+	m *big.Int
+}
+
+type intTr struct {
+	lazyMemo  map[*Term]*Poly
+	canonMemo map[*Term]*Poly
+	boolMemo  map[*Term]*Term
+	intMemo   map[*Term]*Poly
+	vbound    map[*Term]*big.Int // BV var -> inclusive upper bound from hypotheses
+	atomIv    map[*Term]ival
+	divSk     map[*Term]*divDef // IDiv term -> definition
+	skDef     map[*Term]*divDef // skolem var -> definition
+	bvVars    map[*Term]*Term   // Int var -> BV var (for range constraints)
+}
+
+var statModsDropped, statModsKept int64
+
+func newIntTranslator() *intTr {
+	return &intTr{lazyMemo: map[*Term]*Poly{}, canonMemo: map[*Term]*Poly{}, boolMemo: map[*Term]*Term{},
+		intMemo: map[*Term]*Poly{}, vbound: map[*Term]*big.Int{}, atomIv: map[*Term]ival{},
+		divSk: map[*Term]*divDef{}, skDef: map[*Term]*divDef{}, bvVars: map[*Term]*Term{}}
+}
+
+// ivOf tightens the structural interval with the monomial-wise one.
+func (tr *intTr) ivOf(p *Poly) ival {
+	sum := ivConst(big0)
+	for _, m := range p.ms {
+		t := ivConst(m.coef)
+		for _, a := range m.atoms {
+			t = ivMul(t, tr.atomIv[a])
+			if !t.known() {
+				break
+			}
+		}
+		sum = ivAdd(sum, t)
+		if !sum.known() {
+			break
+		}
+	}
+	p.iv = ivMeet(p.iv, sum)
+	return p.iv
 }
 
 // scan extracts variable bounds of the shapes  x <u c,  x <=u c  from hypothesis conjuncts.
@@ -124,7 +335,6 @@ func (tr *intTr) scan(hyps []*Term) {
 			}
 		case ONot:
 			x := h.args[0]
-			// not (c <u x)  ==  x <=u c ; not (c <=u x) == x <u c
 			if x.op == OBvUlt && x.args[1].op == OVar && x.args[0].IsConst() {
 				upd(x.args[1], x.args[0].val)
 			}
@@ -132,7 +342,6 @@ func (tr *intTr) scan(hyps []*Term) {
 				upd(x.args[1], new(big.Int).Sub(x.args[0].val, big1))
 			}
 		case OEq:
-			// extract(x, w-1, k) == 0  =>  x < 2^k
 			for i := 0; i < 2; i++ {
 				a, b := h.args[i], h.args[1-i]
 				if b.IsConst() && b.val.Sign() == 0 && a.op == OExtract && a.args[0].op == OVar && a.p1 == a.args[0].sort.W-1 {
@@ -143,17 +352,16 @@ func (tr *intTr) scan(hyps []*Term) {
 	}
 }
 
-func (tr *intTr) bvVar(t *Term) lazyInt {
+func (tr *intTr) bvVar(t *Term) *Poly {
 	v := Var(t.name, IntSort)
 	hi := maskW(t.sort.W)
 	if b, ok := tr.vbound[t]; ok && b.Cmp(hi) < 0 {
 		hi = b
 	}
-	if !tr.declared[t] {
-		tr.declared[t] = true
-		tr.side = append(tr.side, ILe(IntI(0), v), ILe(v, IntC(maskW(t.sort.W))))
-	}
-	return lazyInt{v, ival{big0, hi}}
+	tr.bvVars[v] = t
+	iv := ival{big0, hi}
+	tr.atomIv[v] = iv
+	return pAtom(v, iv)
 }
 
 func trailingZeros(t *Term) int {
@@ -194,6 +402,15 @@ func trailingZeros(t *Term) int {
 			return t.sort.W
 		}
 		return z
+	case OExtract:
+		z := trailingZeros(t.args[0]) - t.p2
+		if z < 0 {
+			return 0
+		}
+		if z > t.sort.W {
+			return t.sort.W
+		}
+		return z
 	case OIte:
 		a, b := trailingZeros(t.args[1]), trailingZeros(t.args[2])
 		if a < b {
@@ -204,43 +421,168 @@ func trailingZeros(t *Term) int {
 	return 0
 }
 
-// canon returns the canonical residue in [0, 2^w).
-func (tr *intTr) canon(t *Term) lazyInt {
+// divPoly = floor(p / m) for a positive constant m.
+func (tr *intTr) divPoly(p *Poly, m *big.Int) *Poly {
+	if m.Cmp(big1) == 0 {
+		return p
+	}
+	k := &Poly{ms: map[string]*pmono{}}
+	r := &Poly{ms: map[string]*pmono{}}
+	for key, mo := range p.ms {
+		q, rem := new(big.Int), new(big.Int)
+		if key == "" {
+			q.DivMod(mo.coef, m, rem) // constant: Euclidean split
+		} else {
+			q.QuoRem(mo.coef, m, rem) // |rem| < m with the sign of the coefficient: small coefficients stay put
+		}
+		if q.Sign() != 0 {
+			k.ms[key] = &pmono{coef: q, atoms: mo.atoms}
+		}
+		if rem.Sign() != 0 {
+			r.ms[key] = &pmono{coef: rem, atoms: mo.atoms}
+		}
+	}
+	k.iv, r.iv = unk(), unk()
+	kiv0 := tr.ivOf(k)
+	riv := tr.ivOf(r)
+	piv := tr.ivOf(p)
+	// r = p - m*k : a second bound on r
+	if piv.known() && kiv0.known() {
+		riv = ivMeet(riv, ivSub(piv, ivMul(kiv0, ivConst(m))))
+		r.iv = riv
+	}
+	if c, ok := r.isConst(); ok {
+		res := pAdd(k, pConst(floorDiv(c, m)))
+		res.iv = ivMeet(res.iv, ivDivC(piv, m))
+		return res
+	}
+	if riv.known() {
+		ql, qh := floorDiv(riv.lo, m), floorDiv(riv.hi, m)
+		if ql.Cmp(qh) == 0 {
+			// the remainder part contributes a constant quotient
+			res := pAdd(k, pConst(ql))
+			res.iv = ivMeet(res.iv, ivDivC(piv, m))
+			return res
+		}
+	}
+	finish := func(d *Poly) *Poly {
+		res := pAdd(k, d)
+		res.iv = ivMeet(res.iv, ivDivC(piv, m))
+		return res
+	}
+	// nested division: floor((floor(r'/m') + K) / m) = floor((r' + K*m') / (m'*m))
+	for _, key := range r.sortedKeys() {
+		mo := r.ms[key]
+		if len(mo.atoms) != 1 || mo.coef.Cmp(big1) != 0 {
+			continue
+		}
+		def, ok := tr.skDef[mo.atoms[0]]
+		if !ok {
+			continue
+		}
+		rest := pSub(r, pAtom(mo.atoms[0], tr.atomIv[mo.atoms[0]]))
+		inner := pAdd(def.r, pScale(rest, def.m))
+		inner.iv = unk()
+		return finish(tr.divPoly(inner, new(big.Int).Mul(def.m, m)))
+	}
+	// scale reduction for m = 2^k: if R = g*A + B with 0 <= B < g and g | m then floor(R/m) = floor(A/(m/g))
+	if m.BitLen() > 1 && new(big.Int).And(m, new(big.Int).Sub(m, big1)).Sign() == 0 {
+		kbits := m.BitLen() - 1
+		for j := kbits - 1; j >= 1; j-- {
+			g := pow2(j)
+			a := &Poly{ms: map[string]*pmono{}}
+			b := &Poly{ms: map[string]*pmono{}}
+			for key, mo := range r.ms {
+				q, rem := new(big.Int), new(big.Int)
+				q.QuoRem(mo.coef, g, rem)
+				if rem.Sign() == 0 {
+					a.ms[key] = &pmono{coef: q, atoms: mo.atoms}
+				} else {
+					b.ms[key] = mo
+				}
+			}
+			if len(a.ms) == 0 {
+				continue
+			}
+			a.iv, b.iv = unk(), unk()
+			if len(b.ms) > 0 && !ivWithin(tr.ivOf(b), big0, new(big.Int).Sub(g, big1)) {
+				continue
+			}
+			return finish(tr.divPoly(a, pow2(kbits-j)))
+		}
+	}
+	dt := IDiv(polyTerm(r), IntC(m))
+	def, ok := tr.divSk[dt]
+	if !ok {
+		q := Var("d!"+strconv.FormatInt(dt.id, 36), IntSort)
+		def = &divDef{q: q, r: r, m: m}
+		tr.divSk[dt] = def
+		tr.skDef[q] = def
+		tr.atomIv[q] = ivDivC(riv, m)
+	}
+	res := pAdd(k, pAtom(def.q, tr.atomIv[def.q]))
+	res.iv = ivMeet(res.iv, ivDivC(piv, m))
+	return res
+}
+
+// modPoly = p mod m = p - m*floor(p/m), in [0, m).
+func (tr *intTr) modPoly(p *Poly, m *big.Int) *Poly {
+	mm := new(big.Int).Sub(m, big1)
+	if ivWithin(tr.ivOf(p), big0, mm) {
+		atomic.AddInt64(&statModsDropped, 1)
+		return p
+	}
+	atomic.AddInt64(&statModsKept, 1)
+	d := tr.divPoly(p, m)
+	r := pSub(p, pScale(d, m))
+	r.iv = ivMeet(kiv(big0, mm), r.iv)
+	return r
+}
+
+func (tr *intTr) canon(t *Term) *Poly {
 	if r, ok := tr.canonMemo[t]; ok {
 		return r
 	}
-	l := tr.lazy(t)
-	w := t.sort.W
-	var r lazyInt
-	if ivWithin(l.iv, big0, maskW(w)) {
-		atomic.AddInt64(&statModsDropped, 1)
-		r = l
-	} else {
-		atomic.AddInt64(&statModsKept, 1)
-		r = lazyInt{IMod(l.p, IntC(pow2(w))), ival{big0, maskW(w)}}
-	}
+	r := tr.modPoly(tr.lazy(t), pow2(t.sort.W))
 	tr.canonMemo[t] = r
 	return r
 }
 
-func (tr *intTr) signed(t *Term) lazyInt {
+func (tr *intTr) boolAtom(c *Term) *Poly {
+	if c.IsConst() {
+		if c.IsTrue() {
+			return pConst(big1)
+		}
+		return pConst(big0)
+	}
+	if c.op == ONot {
+		return pSub(pConst(big1), tr.boolAtom(c.args[0]))
+	}
+	a := Ite(c, IntI(1), IntI(0))
+	tr.atomIv[a] = kiv(big0, big1)
+	return pAtom(a, kiv(big0, big1))
+}
+
+func (tr *intTr) itePoly(c *Term, a, b *Poly) *Poly {
+	// b + [c]*(a-b)
+	r := pAdd(b, pMul(tr.boolAtom(c), pSub(a, b)))
+	r.iv = ivMeet(r.iv, ivUnion(tr.ivOf(a), tr.ivOf(b)))
+	return r
+}
+
+func (tr *intTr) signed(t *Term) *Poly {
 	c := tr.canon(t)
 	w := t.sort.W
 	half := pow2(w - 1)
-	if c.iv.hi.Cmp(half) < 0 {
+	iv := tr.ivOf(c)
+	if iv.known() && iv.hi.Cmp(half) < 0 {
 		return c
 	}
-	p := ISub(c.p, Ite(ILe(IntC(half), c.p), IntC(pow2(w)), IntI(0)))
-	return lazyInt{p, ival{new(big.Int).Neg(half), new(big.Int).Sub(half, big1)}}
-}
-
-func (tr *intTr) modK(l lazyInt, k int) lazyInt {
-	if ivWithin(l.iv, big0, maskW(k)) {
-		atomic.AddInt64(&statModsDropped, 1)
-		return l
-	}
-	atomic.AddInt64(&statModsKept, 1)
-	return lazyInt{IMod(l.p, IntC(pow2(k))), ival{big0, maskW(k)}}
+	// c - 2^w * [c >= 2^(w-1)]
+	ge := ILe(IntC(half), polyTerm(c))
+	r := pSub(c, pScale(tr.boolAtom(ge), pow2(w)))
+	r.iv = kiv(new(big.Int).Neg(half), new(big.Int).Sub(half, big1))
+	return r
 }
 
 func contiguousMask(v *big.Int) (lo, hi int, ok bool) {
@@ -256,7 +598,7 @@ func contiguousMask(v *big.Int) (lo, hi int, ok bool) {
 	return lo, lo + n - 1, true
 }
 
-func (tr *intTr) lazy(t *Term) lazyInt {
+func (tr *intTr) lazy(t *Term) *Poly {
 	if r, ok := tr.lazyMemo[t]; ok {
 		return r
 	}
@@ -265,7 +607,7 @@ func (tr *intTr) lazy(t *Term) lazyInt {
 	return r
 }
 
-func (tr *intTr) lazy1(t *Term) lazyInt {
+func (tr *intTr) lazy1(t *Term) *Poly {
 	if t.sort.K != KBV {
 		fail("int translation: non-BV term in lazy: %s", t)
 	}
@@ -274,68 +616,47 @@ func (tr *intTr) lazy1(t *Term) lazyInt {
 	case OVar:
 		return tr.bvVar(t)
 	case OConst:
-		return lazyInt{IntC(t.val), ivConst(t.val)}
+		return pConst(t.val)
 	case OBvAdd:
-		a, b := tr.lazy(t.args[0]), tr.lazy(t.args[1])
-		// adding a "negative" constant: treat 2^w - c as -c when that keeps the interval non-negative
-		if t.args[1].IsConst() && t.args[1].val.Bit(w-1) == 1 {
-			neg := new(big.Int).Sub(t.args[1].val, pow2(w))
-			b = lazyInt{IntC(neg), ivConst(neg)}
-		}
-		return lazyInt{IAdd(a.p, b.p), ivAdd(a.iv, b.iv)}
-	case OBvSub:
-		a, b := tr.lazy(t.args[0]), tr.lazy(t.args[1])
-		return lazyInt{ISub(a.p, b.p), ivSub(a.iv, b.iv)}
-	case OBvMul:
-		a, b := tr.lazy(t.args[0]), tr.lazy(t.args[1])
-		return lazyInt{IMul(a.p, b.p), ivMul(a.iv, b.iv)}
-	case OBvNeg:
 		a := tr.lazy(t.args[0])
-		return lazyInt{INeg(a.p), ivNeg(a.iv)}
+		if t.args[1].IsConst() && t.args[1].val.Bit(w-1) == 1 {
+			return pAdd(a, pConst(new(big.Int).Sub(t.args[1].val, pow2(w)))) // 2^w - c  ==  -c  (mod 2^w)
+		}
+		return pAdd(a, tr.lazy(t.args[1]))
+	case OBvSub:
+		return pSub(tr.lazy(t.args[0]), tr.lazy(t.args[1]))
+	case OBvMul:
+		return pMul(tr.lazy(t.args[0]), tr.lazy(t.args[1]))
+	case OBvNeg:
+		return pNeg(tr.lazy(t.args[0]))
 	case OBvNot:
-		a := tr.canon(t.args[0])
-		m := maskW(w)
-		return lazyInt{ISub(IntC(m), a.p), ivSub(ivConst(m), a.iv)}
+		return pSub(pConst(maskW(w)), tr.canon(t.args[0]))
 	case OBvShl:
 		if !t.args[1].IsConst() {
 			fail("int translation: shift by symbolic amount")
 		}
-		k := int(t.args[1].val.Int64())
-		a := tr.lazy(t.args[0])
-		m := pow2(k)
-		return lazyInt{IMul(a.p, IntC(m)), ivMul(a.iv, ivConst(m))}
+		return pScale(tr.lazy(t.args[0]), pow2(int(t.args[1].val.Int64())))
 	case OBvLshr:
 		if !t.args[1].IsConst() {
 			fail("int translation: shift by symbolic amount")
 		}
-		k := int(t.args[1].val.Int64())
-		a := tr.canon(t.args[0])
-		m := pow2(k)
-		return lazyInt{IDiv(a.p, IntC(m)), ivDivC(a.iv, m)}
+		return tr.divPoly(tr.canon(t.args[0]), pow2(int(t.args[1].val.Int64())))
 	case OBvAshr:
 		if !t.args[1].IsConst() {
 			fail("int translation: shift by symbolic amount")
 		}
-		k := int(t.args[1].val.Int64())
-		a := tr.signed(t.args[0])
-		m := pow2(k)
-		return lazyInt{IDiv(a.p, IntC(m)), ivDivC(a.iv, m)}
+		return tr.divPoly(tr.signed(t.args[0]), pow2(int(t.args[1].val.Int64())))
 	case OExtract:
-		a := t.args[0]
 		if t.p2 == 0 {
-			return tr.lazy(a) // truncation: same polynomial, smaller modulus
+			return tr.lazy(t.args[0]) // truncation: same polynomial, smaller modulus
 		}
-		c := tr.canon(a)
-		m := pow2(t.p2)
-		return lazyInt{IDiv(c.p, IntC(m)), ivDivC(c.iv, m)}
+		return tr.divPoly(tr.canon(t.args[0]), pow2(t.p2))
 	case OZext:
 		return tr.canon(t.args[0])
 	case OSext:
 		return tr.signed(t.args[0])
 	case OConcat:
-		hi, lo := tr.canon(t.args[0]), tr.canon(t.args[1])
-		m := pow2(t.args[1].sort.W)
-		return lazyInt{IAdd(IMul(hi.p, IntC(m)), lo.p), ivAdd(ivMul(hi.iv, ivConst(m)), lo.iv)}
+		return pAdd(pScale(tr.canon(t.args[0]), pow2(t.args[1].sort.W)), tr.canon(t.args[1]))
 	case OBvAnd:
 		a, b := t.args[0], t.args[1]
 		if a.IsConst() {
@@ -347,37 +668,44 @@ func (tr *intTr) lazy1(t *Term) lazyInt {
 				fail("int translation: and with non-contiguous mask %s", b)
 			}
 			if lo == 0 {
-				return tr.modK(tr.lazy(a), hi+1)
+				return tr.modPoly(tr.lazy(a), pow2(hi+1))
 			}
-			c := tr.canon(a)
-			m := pow2(lo)
-			d := lazyInt{IDiv(c.p, IntC(m)), ivDivC(c.iv, m)}
-			d = tr.modK(d, hi-lo+1)
-			return lazyInt{IMul(d.p, IntC(m)), ivMul(d.iv, ivConst(m))}
+			d := tr.divPoly(tr.canon(a), pow2(lo))
+			return pScale(tr.modPoly(d, pow2(hi-lo+1)), pow2(lo))
 		}
 		la, lb := tr.lazy(a), tr.lazy(b)
 		m1 := big.NewInt(-1)
-		if ivWithin(lb.iv, m1, big0) { // b is 0 or all-ones (as -1)
-			c := tr.canon(a)
-			return lazyInt{IMul(c.p, INeg(lb.p)), ivUnion(ivConst(big0), c.iv)}
+		if ivWithin(tr.ivOf(lb), m1, big0) { // b is 0 or all-ones (as -1)
+			ca := tr.canon(a)
+			r := pMul(ca, pNeg(lb))
+			r.iv = ivMeet(r.iv, ivUnion(ivConst(big0), tr.ivOf(ca)))
+			return r
 		}
-		if ivWithin(la.iv, m1, big0) {
-			c := tr.canon(b)
-			return lazyInt{IMul(c.p, INeg(la.p)), ivUnion(ivConst(big0), c.iv)}
+		if ivWithin(tr.ivOf(la), m1, big0) {
+			cb := tr.canon(b)
+			r := pMul(cb, pNeg(la))
+			r.iv = ivMeet(r.iv, ivUnion(ivConst(big0), tr.ivOf(cb)))
+			return r
 		}
 		ca, cb := tr.canon(a), tr.canon(b)
-		if ivWithin(ca.iv, big0, big1) && ivWithin(cb.iv, big0, big1) {
-			return lazyInt{IMul(ca.p, cb.p), kiv(big0, big1)}
+		if ivWithin(tr.ivOf(ca), big0, big1) && ivWithin(tr.ivOf(cb), big0, big1) {
+			r := pMul(ca, cb)
+			r.iv = kiv(big0, big1)
+			return r
 		}
-		fail("int translation: bvand of two symbolic operands")
+		// x & (all-ones-or-zero mask that is canonical: 0 or 2^w-1)
+		fail("int translation: bvand of two symbolic operands (%s & %s)", termString(a, 2), termString(b, 2))
 	case OBvOr:
 		a, b := t.args[0], t.args[1]
 		ca, cb := tr.canon(a), tr.canon(b)
-		if cb.iv.hi.BitLen() <= trailingZeros(a) || ca.iv.hi.BitLen() <= trailingZeros(b) {
-			return lazyInt{IAdd(ca.p, cb.p), ivAdd(ca.iv, cb.iv)}
+		ia, ib := tr.ivOf(ca), tr.ivOf(cb)
+		if (ib.known() && ib.hi.BitLen() <= trailingZeros(a)) || (ia.known() && ia.hi.BitLen() <= trailingZeros(b)) {
+			return pAdd(ca, cb)
 		}
-		if ivWithin(ca.iv, big0, big1) && ivWithin(cb.iv, big0, big1) {
-			return lazyInt{ISub(IAdd(ca.p, cb.p), IMul(ca.p, cb.p)), kiv(big0, big1)}
+		if ivWithin(ia, big0, big1) && ivWithin(ib, big0, big1) {
+			r := pSub(pAdd(ca, cb), pMul(ca, cb))
+			r.iv = kiv(big0, big1)
+			return r
 		}
 		fail("int translation: bvor of overlapping operands (%s | %s)", termString(a, 2), termString(b, 2))
 	case OBvXor:
@@ -386,102 +714,195 @@ func (tr *intTr) lazy1(t *Term) lazyInt {
 			a, b = b, a
 		}
 		ca := tr.canon(a)
-		if b.IsConst() && b.val.Cmp(big1) == 0 && ivWithin(ca.iv, big0, big1) {
-			return lazyInt{ISub(IntI(1), ca.p), kiv(big0, big1)}
+		if b.IsConst() && b.val.Cmp(big1) == 0 && ivWithin(tr.ivOf(ca), big0, big1) {
+			return pSub(pConst(big1), ca)
 		}
 		cb := tr.canon(b)
-		if ivWithin(ca.iv, big0, big1) && ivWithin(cb.iv, big0, big1) {
-			return lazyInt{ISub(IAdd(ca.p, cb.p), IMul(IntI(2), IMul(ca.p, cb.p))), kiv(big0, big1)}
+		if ivWithin(tr.ivOf(ca), big0, big1) && ivWithin(tr.ivOf(cb), big0, big1) {
+			r := pSub(pAdd(ca, cb), pScale(pMul(ca, cb), big.NewInt(2)))
+			r.iv = kiv(big0, big1)
+			return r
 		}
-		fail("int translation: bvxor of symbolic operands")
+		fail("int translation: bvxor of symbolic operands (%s ^ %s)", termString(a, 2), termString(b, 2))
 	case OIte:
-		c := tr.boolean(t.args[0])
-		a, b := tr.lazy(t.args[1]), tr.lazy(t.args[2])
-		return lazyInt{Ite(c, a.p, b.p), ivUnion(a.iv, b.iv)}
+		return tr.itePoly(tr.boolean(t.args[0]), tr.lazy(t.args[1]), tr.lazy(t.args[2]))
 	case OBvUdiv, OBvUrem:
 		if !t.args[1].IsConst() || t.args[1].val.Sign() == 0 {
 			fail("int translation: division by non-constant")
 		}
 		a := tr.canon(t.args[0])
-		m := t.args[1].val
 		if t.op == OBvUdiv {
-			return lazyInt{IDiv(a.p, IntC(m)), ivDivC(a.iv, m)}
+			return tr.divPoly(a, t.args[1].val)
 		}
-		return lazyInt{IMod(a.p, IntC(m)), kiv(big0, new(big.Int).Sub(m, big1))}
+		return tr.modPoly(a, t.args[1].val)
 	case OBvSdiv, OBvSrem:
 		fail("int translation: signed division")
 	case OUF:
 		fail("int translation: bit-vector UF %s", t.name)
 	}
 	fail("int translation: unsupported op in %s", termString(t, 2))
-	return lazyInt{}
+	return nil
+}
+
+func (tr *intTr) opaque(t *Term, args []*Term) *Poly {
+	// an Int-sorted term kept as an atom (arguments already translated)
+	a := rebuild(t, args)
+	if _, ok := tr.atomIv[a]; !ok {
+		tr.atomIv[a] = unk()
+	}
+	return pAtom(a, unk())
 }
 
 // integer translates an Int-sorted term (expanding bv2int markers).
-func (tr *intTr) integer(t *Term) lazyInt {
+func (tr *intTr) integer(t *Term) *Poly {
 	if r, ok := tr.intMemo[t]; ok {
 		return r
 	}
-	var r lazyInt
+	var r *Poly
 	switch t.op {
 	case OConst:
-		r = lazyInt{t, ivConst(t.val)}
+		r = pConst(t.val)
 	case OVar:
-		r = lazyInt{t, unk()}
+		if _, ok := tr.atomIv[t]; !ok {
+			tr.atomIv[t] = unk()
+		}
+		r = pAtom(t, tr.atomIv[t])
 	case OBv2Int:
 		r = tr.canon(t.args[0])
 	case OIAdd:
-		a, b := tr.integer(t.args[0]), tr.integer(t.args[1])
-		r = lazyInt{IAdd(a.p, b.p), ivAdd(a.iv, b.iv)}
+		r = pAdd(tr.integer(t.args[0]), tr.integer(t.args[1]))
 	case OISub:
-		a, b := tr.integer(t.args[0]), tr.integer(t.args[1])
-		r = lazyInt{ISub(a.p, b.p), ivSub(a.iv, b.iv)}
+		r = pSub(tr.integer(t.args[0]), tr.integer(t.args[1]))
 	case OIMul:
-		a, b := tr.integer(t.args[0]), tr.integer(t.args[1])
-		r = lazyInt{IMul(a.p, b.p), ivMul(a.iv, b.iv)}
+		r = pMul(tr.integer(t.args[0]), tr.integer(t.args[1]))
 	case OINeg:
-		a := tr.integer(t.args[0])
-		r = lazyInt{INeg(a.p), ivNeg(a.iv)}
+		r = pNeg(tr.integer(t.args[0]))
 	case OIDiv:
 		a, b := tr.integer(t.args[0]), tr.integer(t.args[1])
-		iv := unk()
-		if b.p.IsConst() && b.p.val.Sign() > 0 {
-			iv = ivDivC(a.iv, b.p.val)
+		if c, ok := b.isConst(); ok && c.Sign() > 0 {
+			r = tr.divPoly(a, c)
+		} else {
+			r = tr.opaque(t, []*Term{polyTerm(a), polyTerm(b)})
 		}
-		r = lazyInt{IDiv(a.p, b.p), iv}
 	case OIMod:
 		a, b := tr.integer(t.args[0]), tr.integer(t.args[1])
-		iv := unk()
-		if b.p.IsConst() && b.p.val.Sign() > 0 {
-			iv = kiv(big0, new(big.Int).Sub(b.p.val, big1))
-			if ivWithin(a.iv, big0, iv.hi) {
-				r = a
-				break
-			}
+		if c, ok := b.isConst(); ok && c.Sign() > 0 {
+			r = tr.modPoly(a, c)
+		} else {
+			r = tr.opaque(t, []*Term{polyTerm(a), polyTerm(b)})
 		}
-		r = lazyInt{IMod(a.p, b.p), iv}
 	case OIte:
-		c := tr.boolean(t.args[0])
-		a, b := tr.integer(t.args[1]), tr.integer(t.args[2])
-		r = lazyInt{Ite(c, a.p, b.p), ivUnion(a.iv, b.iv)}
+		r = tr.itePoly(tr.boolean(t.args[0]), tr.integer(t.args[1]), tr.integer(t.args[2]))
 	case OUF:
-		var as []*Term
-		for _, a := range t.args {
-			if a.sort.K == KInt {
-				as = append(as, tr.integer(a).p)
-			} else if a.sort.K == KBool {
-				as = append(as, tr.boolean(a))
-			} else {
-				as = append(as, tr.canon(a).p)
-			}
-		}
-		nm := t.name
-		r = lazyInt{UF(nm, IntSort, as...), unk()}
+		r = tr.opaque(t, tr.ufArgs(t))
 	default:
 		fail("int translation: unsupported Int op in %s", termString(t, 2))
 	}
 	tr.intMemo[t] = r
 	return r
+}
+
+func (tr *intTr) ufArgs(t *Term) []*Term {
+	var as []*Term
+	for _, a := range t.args {
+		switch a.sort.K {
+		case KInt:
+			as = append(as, polyTerm(tr.integer(a)))
+		case KBool:
+			as = append(as, tr.boolean(a))
+		default:
+			as = append(as, polyTerm(tr.canon(a)))
+		}
+	}
+	return as
+}
+
+// cmp0 builds  p < 0  /  p <= 0  /  p = 0  with constant and range folding.
+func (tr *intTr) cmp0(p *Poly, op Op) *Term {
+	if c, ok := p.isConst(); ok {
+		switch op {
+		case OILt:
+			return BoolC(c.Sign() < 0)
+		case OILe:
+			return BoolC(c.Sign() <= 0)
+		default:
+			return BoolC(c.Sign() == 0)
+		}
+	}
+	iv := tr.ivOf(p)
+	if iv.known() {
+		switch op {
+		case OILt:
+			if iv.hi.Sign() < 0 {
+				return TrueT
+			}
+			if iv.lo.Sign() >= 0 {
+				return FalseT
+			}
+		case OILe:
+			if iv.hi.Sign() <= 0 {
+				return TrueT
+			}
+			if iv.lo.Sign() > 0 {
+				return FalseT
+			}
+		default:
+			if iv.hi.Sign() < 0 || iv.lo.Sign() > 0 {
+				return FalseT
+			}
+		}
+	}
+	// move negative monomials to the right-hand side for readability/solver friendliness
+	l := &Poly{ms: map[string]*pmono{}}
+	r := &Poly{ms: map[string]*pmono{}}
+	for k, m := range p.ms {
+		if m.coef.Sign() > 0 {
+			l.ms[k] = m
+		} else {
+			r.ms[k] = &pmono{coef: new(big.Int).Neg(m.coef), atoms: m.atoms}
+		}
+	}
+	lt, rt := polyTerm(l), polyTerm(r)
+	switch op {
+	case OILt:
+		return ILt(lt, rt)
+	case OILe:
+		return ILe(lt, rt)
+	}
+	return Eq(lt, rt)
+}
+
+// congruent0 builds  p ≡ 0 (mod m)  after reducing coefficients modulo m.
+func (tr *intTr) congruent0(p *Poly, m *big.Int) *Term {
+	r := &Poly{ms: map[string]*pmono{}}
+	half := new(big.Int).Rsh(m, 1)
+	for k, mo := range p.ms {
+		c := new(big.Int).Mod(mo.coef, m)
+		if c.Sign() == 0 {
+			continue
+		}
+		if c.Cmp(half) > 0 {
+			c.Sub(c, m)
+		}
+		r.ms[k] = &pmono{coef: c, atoms: mo.atoms}
+	}
+	if c, ok := r.isConst(); ok {
+		return BoolC(new(big.Int).Mod(c, m).Sign() == 0)
+	}
+	return Eq(IMod(polyTerm(r), IntC(m)), IntI(0))
+}
+
+func isModZero(t *Term) (x *Term, m *big.Int, ok bool) {
+	if t.op != OEq {
+		return nil, nil, false
+	}
+	for i := 0; i < 2; i++ {
+		a, b := t.args[i], t.args[1-i]
+		if a.op == OIMod && b.IsConst() && b.val.Sign() == 0 && a.args[1].IsConst() && a.args[1].val.Sign() > 0 {
+			return a.args[0], a.args[1].val, true
+		}
+	}
+	return nil, nil, false
 }
 
 func (tr *intTr) boolean(t *Term) *Term {
@@ -490,9 +911,7 @@ func (tr *intTr) boolean(t *Term) *Term {
 	}
 	var r *Term
 	switch t.op {
-	case OConst:
-		r = t
-	case OVar:
+	case OConst, OVar:
 		r = t
 	case ONot:
 		r = Not(tr.boolean(t.args[0]))
@@ -508,34 +927,28 @@ func (tr *intTr) boolean(t *Term) *Term {
 		case KBool:
 			r = Eq(tr.boolean(a), tr.boolean(b))
 		case KInt:
-			r = Eq(tr.integer(a).p, tr.integer(b).p)
+			if x, m, ok := isModZero(t); ok {
+				r = tr.congruent0(tr.integer(x), m)
+			} else {
+				r = tr.cmp0(pSub(tr.integer(a), tr.integer(b)), OEq)
+			}
 		default:
-			r = Eq(tr.canon(a).p, tr.canon(b).p)
+			r = tr.cmp0(pSub(tr.canon(a), tr.canon(b)), OEq)
 		}
 	case OBvUlt:
-		r = ILt(tr.canon(t.args[0]).p, tr.canon(t.args[1]).p)
+		r = tr.cmp0(pSub(tr.canon(t.args[0]), tr.canon(t.args[1])), OILt)
 	case OBvUle:
-		r = ILe(tr.canon(t.args[0]).p, tr.canon(t.args[1]).p)
+		r = tr.cmp0(pSub(tr.canon(t.args[0]), tr.canon(t.args[1])), OILe)
 	case OBvSlt:
-		r = ILt(tr.signed(t.args[0]).p, tr.signed(t.args[1]).p)
+		r = tr.cmp0(pSub(tr.signed(t.args[0]), tr.signed(t.args[1])), OILt)
 	case OBvSle:
-		r = ILe(tr.signed(t.args[0]).p, tr.signed(t.args[1]).p)
+		r = tr.cmp0(pSub(tr.signed(t.args[0]), tr.signed(t.args[1])), OILe)
 	case OILt:
-		r = ILt(tr.integer(t.args[0]).p, tr.integer(t.args[1]).p)
+		r = tr.cmp0(pSub(tr.integer(t.args[0]), tr.integer(t.args[1])), OILt)
 	case OILe:
-		r = ILe(tr.integer(t.args[0]).p, tr.integer(t.args[1]).p)
+		r = tr.cmp0(pSub(tr.integer(t.args[0]), tr.integer(t.args[1])), OILe)
 	case OUF:
-		var as []*Term
-		for _, a := range t.args {
-			if a.sort.K == KInt {
-				as = append(as, tr.integer(a).p)
-			} else if a.sort.K == KBool {
-				as = append(as, tr.boolean(a))
-			} else {
-				as = append(as, tr.canon(a).p)
-			}
-		}
-		r = UF(t.name, BoolSort, as...)
+		r = UF(t.name, BoolSort, tr.ufArgs(t)...)
 	default:
 		fail("int translation: unsupported Bool op in %s", termString(t, 2))
 	}
@@ -545,17 +958,45 @@ func (tr *intTr) boolean(t *Term) *Term {
 
 // hyp translates a hypothesis conjunct; congruences "(x mod m) = 0" are skolemised to x = k*m.
 func (tr *intTr) hyp(t *Term) *Term {
-	if t.op == OEq {
-		for i := 0; i < 2; i++ {
-			a, b := t.args[i], t.args[1-i]
-			if a.op == OIMod && b.IsConst() && b.val.Sign() == 0 && a.args[1].IsConst() {
-				x := tr.integer(a.args[0]).p
-				k := Var("k!"+itoa(int(a.id)), IntSort)
-				return Eq(x, IMul(k, a.args[1]))
-			}
-		}
+	if x, m, ok := isModZero(t); ok {
+		p := tr.integer(x)
+		k := Var("k!"+strconv.FormatInt(t.id, 36), IntSort)
+		return Eq(polyTerm(p), IMul(k, IntC(m)))
 	}
 	return tr.boolean(t)
 }
 
-func itoa(i int) string { return big.NewInt(int64(i)).String() }
+// sideConstraints returns range constraints for the variables and defining inequalities for the
+// division skolems reachable from the roots (transitively).
+func (tr *intTr) sideConstraints(roots []*Term) []*Term {
+	var side []*Term
+	done := map[*Term]bool{}
+	work := roots
+	for len(work) > 0 {
+		var next []*Term
+		for _, v := range termVars(work...) {
+			if done[v] {
+				continue
+			}
+			done[v] = true
+			if _, ok := tr.bvVars[v]; ok {
+				iv := tr.atomIv[v] // full width, or the tighter bound scanned from the hypotheses
+				side = append(side, ILe(IntC(iv.lo), v), ILe(v, IntC(iv.hi)))
+			}
+			if def, ok := tr.skDef[v]; ok {
+				// m*q <= r < m*q + m
+				rt := polyTerm(def.r)
+				mq := IMul(v, IntC(def.m))
+				c1 := ILe(mq, rt)
+				c2 := ILt(rt, IAdd(mq, IntC(def.m)))
+				side = append(side, c1, c2)
+				if iv := tr.atomIv[v]; iv.known() {
+					side = append(side, ILe(IntC(iv.lo), v), ILe(v, IntC(iv.hi)))
+				}
+				next = append(next, c1, c2)
+			}
+		}
+		work = next
+	}
+	return side
+}
